@@ -234,3 +234,49 @@ Example C15_compact_range_nonvacuous :
   ∃ q' x', to_compact default_reg ex_len = Ok q' ∧ uc_eqb (rq_u q') (mkuc [("kilometer", mkq 1 1)]) = true
            ∧ rq_m q' = MFin x' ∧ (1 <= Qcabs x')%Qc ∧ (Qcabs x' < pow10 3)%Qc.
 Proof. apply cx_generic. vm_compute. reflexivity. Qed.
+
+(** ** the two defects of pint that the faithful model reproduces *)
+(** F21: a unit whose name has two readings makes [to_compact] fail its own assertion … *)
+Theorem C15_compact_defined_refuted :
+  (λ r, wfb (rq_u ex_dtex) && exact_unitb r (rq_u ex_dtex)
+        && Nat.eqb (length (parse_unit_name r "dtex")) 2
+        && match to_compact r ex_dtex with Err EAssert => true | _ => false end) default_reg = true.
+Proof. vm_compute. reflexivity. Qed.
+(** … and only that: with one reading per unit [infer_base_unit] is defined *)
+Theorem C15_infer_base_defined_guarded r ord a :
+  (∀ k, k ∈ present a ord → ∃ p b, parse_unit_name r k = (p, b) :: nil) →
+  ∃ res, infer_base_unit r ord a = Ok res.
+Proof. exact (infer_base_defined r ord a). Qed.
+(** F22 is a defect of float exponent arithmetic only: in exact exponents the reduction that
+    needs thirds is defined (gill ** (1/3), the same dimensionality); its factor is a cube root,
+    which pint computes in floats ([MApprox]) *)
+Example C15_reduced_thirds_exact :
+  (λ r, match get_reduced_units r (rq_ord ex_thirds) (rq_u ex_thirds), to_reduced_units r ex_thirds,
+              dim_of r (rq_u ex_thirds) with
+        | Ok b, Ok q', Ok d =>
+            uc_eqb b (mkuc [("gill", mkq 1 3)]) && uc_eqb (rq_u q') b
+            && match rq_m q' with MApprox => true | _ => false end
+            && match dim_of r b with Ok d' => uc_eqb d d' | Err _ => false end
+            && negb (exact_unitb r b)
+        | _, _, _ => false
+        end) default_reg = true.
+Proof. vm_compute. reflexivity. Qed.
+(** [to_preferred]: 3 mile/hour with [m/s] preferred is a simple match and the guard holds (the
+    first dimension, [length], has exponent 1): the test as coded and the product test agree;
+    1 acre with [meter] preferred gives meter**2; (1 m) * (3 inch) under auto_reduce_dimensions
+    is 15000/127 inch**2 *)
+Example C15_preferred_and_auto_nonvacuous :
+  (λ r, let mip := (λ (_ : reg) (q : rq) (_ : list uc), rq_u q) in
+        let ms := (cons (mkuc [("meter", mkq 1 1); ("second", mkq (-1) 1)]) nil) in
+        match dim_of r (rq_u ex_speed), to_preferred mip true r ex_speed ms, to_preferred mip false r ex_speed ms,
+              to_preferred mip true r ex_acre (cons (mkuc [("meter", mkq 1 1)]) nil),
+              auto_mul mip true r (AutoCfg false None true) ex_m ex_in with
+        | Ok d, Ok q1, Ok q2, Ok q4, Ok q3 =>
+            simple_guardb d && uc_eqb (rq_u q1) (mkuc [("meter", mkq 1 1); ("second", mkq (-1) 1)]) && uc_eqb (rq_u q2) (rq_u q1)
+            && mag_eqb (rq_m q1) (MFin (mkq 4191 3125)) && mag_eqb (rq_m q2) (rq_m q1)
+            && exact_unitb r (rq_u q1)
+            && uc_eqb (rq_u q4) (mkuc [("meter", mkq 2 1)]) && mag_eqb (rq_m q4) (MFin (mkq 62726400000 15499969))
+            && uc_eqb (rq_u q3) (mkuc [("inch", mkq 2 1)]) && mag_eqb (rq_m q3) (MFin (mkq 15000 127))
+        | _, _, _, _, _ => false
+        end) default_reg = true.
+Proof. vm_compute. reflexivity. Qed.
